@@ -187,6 +187,7 @@ class World:
         self.debug = False
         self.pending_kills = []
         self.harness_errors = []
+        self.stop_flag = False
 
     # ---------------------------------------------------------------- history
     def emit(self, kind, vp=None, **data):
@@ -464,7 +465,7 @@ class World:
         try:
             while True:
                 vp = self._pick()
-                if vp is None:
+                if vp is None or self.stop_flag:
                     break
                 self.steps += 1
                 if self.steps > self.max_steps:
